@@ -1244,7 +1244,9 @@ def d2_level(tier, st):
                                 why = "weights of core %d at (%d, %d), the (core, slice) range gives (%d, %d)" % (rr[0], wa, wl, w_addr + rel + rr[4], rr[5])
                             elif not cmd.get("scale") and (ba, bl) != (w_addr + rel, rr[4]):
                                 why = "scales of core %d at (%d, %d), the (core, slice) range gives (%d, %d)" % (rr[0], ba, bl, w_addr + rel, rr[4])
-                            nch = len(range(d + rr[0], dn, nc))
+                            depths = sorted(set(x[1] for x in rs))  # slice ends: the next encoded slice start, the box end for the last
+                            dend = depths[depths.index(d) + 1] if depths.index(d) + 1 < len(depths) else dn
+                            nch = len(range(d + rr[0], dend, nc))
                             src = cmd["weight_src"]
                             sb = rr[3]
                             if cmd.get("scale"):
@@ -1253,7 +1255,7 @@ def d2_level(tier, st):
                                     why = "scales of core %d at (%d, %d) are not the scale tensor's (core, slice) section" % (rr[0], ba, bl)
                                 sb = sr[0][3] if sr else sb
                             if why is None and sb != 10 * nch:
-                                why = "scale section of core %d slice [%d, %d) has %d bytes for %d channels" % (rr[0], d, dn, sb, nch)
+                                why = "scale section of core %d slice [%d, %d) has %d bytes for %d channels" % (rr[0], d, dend, sb, nch)
                             # bytes in the output file
                             if why is None and flash is not None and src["mem_type"] == "Permanent_NPU":
                                 off = src["address"] + rr[2]
